@@ -224,7 +224,10 @@ mut("P3r", "data.go", "		if r.n <= 0 && !r.skipEndMarker() {", "		if r.n <= 0 {"
 mut("M87", "data.go", "	case stateDot:\n		rest = \"\\r\\n\"", "	case stateDot:\n		rest = \"\\n\"", ["C02", "C06"], "skipEndMarker", note="at the size limit <CRLF>.<LF> is taken for the end marker")
 mut("M88", "data.go", "	r.r.Discard(len(rest))\n	r.state = stateEOF", "	r.state = stateEOF", ["C02", "C06"], "skipEndMarker", note="end marker recognised at the size limit but left in the stream")
 mut("M89", "data.go", "	case stateEOF:\n		return true\n	default:", "	default:", ["C06", "C02"], "", note="a read after the end of an exactly-N message reports too large")
+mut("P11r", "conn.go", "		if enhCode == NoEnhancedCode {\n			c.text.PrintfLine(\"%d-%v\", code, text[i])\n		} else {\n			c.text.PrintfLine(\"%d-%v.%v.%v %v\", code, enhCode[0], enhCode[1], enhCode[2], text[i])\n		}", "		c.text.PrintfLine(\"%d-%v\", code, text[i])", ["C17"], "enhanced-code-on-every-line", note="regression of the multi-line enhanced code fix")
+mut("M103", "conn.go", "			c.text.PrintfLine(\"%d-%v.%v.%v %v\", code, enhCode[0], enhCode[1], enhCode[2], text[i])", "			c.text.PrintfLine(\"%d-%v.%v.%v %v\", code, enhCode[0], enhCode[1], enhCode[1], text[i])", ["C17"], "continuation-lines-carry-the-same-enhanced-code", note="continuation lines repeat the subject digit as detail")
 # ---------------------------------------------------------------- client.go
+mut("M104", "client.go", "		if resp == nil {\n			break\n		}\n		resp64 = make([]byte, encoding.EncodedLen(len(resp)))", "		if len(resp) == 0 {\n			break\n		}\n		resp64 = make([]byte, encoding.EncodedLen(len(resp)))", ["C09"], "success-means-the-server-said-235", note="client stops the AUTH exchange on an empty (non-nil) response and reports success")
 mut("M30", "client.go", "	if d.closed {\n		return fmt.Errorf(\"smtp: data writer closed twice\")\n	}\n	d.closed = true\n", "	if d.closed {\n		return fmt.Errorf(\"smtp: data writer closed twice\")\n	}\n", ["C16"], "always-closed-afterwards", note="dataCloser never marked closed (also regression of fix 755bba6)")
 mut("P13r", "client.go", "		// The transaction is over, its recipients must not be reported\n		// again for the next one on this connection.\n		d.c.rcpts = nil\n", "", ["C18"], "recipients-forgotten", note="regression of fix beb567b (LMTP recipients carried over)")
 mut("P13br", "client.go", "					} else if refused == nil {\n						// Nobody is told about per-recipient statuses:\n						// report the first refusal through Close.\n						refused = smtpErr\n					}", "					}", ["C18"], "refusal-remembered", note="regression of fix bcd2888 (refusal lost without callback)")
@@ -293,6 +296,12 @@ def main():
                 if not ok:
                     print(r.stdout[-1500:])
             corpus.append(dict(id=m["id"], patch=m["id"] + ".patch", props=m["props"], expect=m["expect"], kind=m["kind"], note=m["note"]))
+        # the seeded changes produced by independent sub-agents (/verif/seeded/<id>/) are part of the corpus
+        import glob
+        for mp in sorted(glob.glob(os.path.join(os.path.dirname(ST), "seeded", "*", "meta.json"))):
+            meta = json.load(open(mp))
+            corpus.append(dict(id=meta["id"], patch="../seeded/%s/patch.diff" % meta["id"], props=[meta["breaks_property"]], expect="", kind="mutant",
+                               note="seeded by an independent agent: " + meta.get("needs_to_manifest", "").split("\n")[0][:160]))
         json.dump(corpus, open(os.path.join(ST, "corpus.json"), "w"), indent=1)
         print("wrote", len(corpus), "entries")
     finally:
